@@ -57,7 +57,7 @@ text += ['', '### 8.3 Behaviour-preserving refactorings (`refactorings/RF*/*/pat
          'and option sets).  A check that raises an alarm on one of them is wrong (or the refactoring is not equivalent - none was).  Each patch '
          'is run against ALL twenty quick checks; a full pass of the forty patches costs five hours of the whole machine, so not every patch '
          'could be re-run after the last strengthening of the checks:', '',
-         '* run against the final checks and the final tree (%s): %d patches, %d check runs, all exit 0: %s' % (
+         '* run against the final tree with the checks as they stood in the last hours (%s): %d patches, %d check runs, all exit 0: %s' % (
              head, len(done), 20 * len(done), ', '.join(r.split('/', 1)[1].rsplit('/', 1)[0] for r in done)),
          '* run against earlier versions of the checks (all exit 0 then; not repeated): %s' % (
              ', '.join(r.split('/', 1)[1].rsplit('/', 1)[0] for r in stale) or 'none'),
